@@ -1552,8 +1552,8 @@ class Frame(object):
                     recv.elems.append(args[0])
                     record(ftext)
                     return Const(None)
-                if meth == 'extend' and len(args) == 1 and isinstance(args[0], ListV):
-                    recv.elems.extend(args[0].elems)
+                if meth == 'extend' and len(args) == 1 and isinstance(args[0], (ListV, EachV)):
+                    recv.elems.extend(args[0].elems if isinstance(args[0], ListV) else [args[0]])     # extend(genexp) == the append loop
                     record(ftext)
                     return Const(None)
             if isinstance(recv, Bytes) and meth == 'join' and len(args) == 1:
